@@ -32,3 +32,141 @@ package codegen
 //@   ensures !f.Object.DisableConcurrency ==> (res0 <==> (f.MethodHasContext || f.IsResolver))
 //@   nopanic
 //@   modifies nothing
+
+// ================================================================ family contracts for GENERATED code
+// Instantiated by gocv on every generated function of the probe programs (classification by name/signature:
+// /verif/engine/family.go). graphql.Null is the package-level null marshaler.
+
+// field.gotpl: _T_f. C04: no panic leaves a field function; a recovered panic means: recover hook exactly once,
+// exactly one error reported, null at this position. C01: the function reports at most one error itself and
+// whenever it does the result is null; if the arguments could not be built the middleware/resolver is not run.
+//@ family field [C04,C01]
+//@   noescape
+//@   ghost argErr = false
+//@   at `ec.fieldContext_...` ghost argErr = callres1 != nil
+//@   ensures panicked ==> ret == graphql.Null && calls(Recover) == 1 && calls(Error) == 1
+//@   ensures !panicked ==> calls(Recover) == 0
+//@   ensures !panicked ==> calls(Error) + calls(Errorf) <= 1
+//@   ensures !panicked && calls(Error) + calls(Errorf) >= 1 ==> ret == graphql.Null
+//@   ensures argErr ==> ret == graphql.Null && calls(_fieldMiddleware) == 0 && calls(ResolverMiddleware) == 0 && calls(Error) + calls(Errorf) == 0
+
+// fieldContext_T_f without arguments: cannot fail, cannot panic.
+//@ family fieldctx [C04,C01]
+//@   nopanic
+//@   ensures res1 == nil && res0 != nil
+// with arguments: a panic while unmarshaling the arguments is contained and reported once, any failure gives err.
+//@ family fieldctxargs [C04,C02]
+//@   noescape
+//@   ensures res0 != nil
+//@   ensures panicked ==> calls(Recover) == 1 && calls(Error) == 1
+//@   ensures !panicked && res1 != nil ==> calls(Error) == 1
+
+// object.gotpl: _T. Concurrent fields are handed to the FieldSet as closures (innerFunc) that run on spawned
+// goroutines: the spawn rule (no panic escapes) is imposed on each of them.
+//@ family object$closure [C04]
+//@   params innerFunc
+//@   noescape
+//@   ensures panicked ==> calls(Recover) == 1 && calls(Error) == 1
+//@   ensures !panicked ==> calls(Recover) == 0 && calls(Error) == 0
+
+// type.gotpl: list marshalers. C04: the element closure f handles its own panics (spawn rule on `go f(i)`), and
+// still performs its WaitGroup.Done because that is deferred. C05 (join completeness): WaitGroup.Add(len(v)) is
+// matched by exactly one spawned goroutine per element, each doing exactly one Done - otherwise wg.Wait() never
+// returns. C01: a non-null result is only returned after the join.
+//@ trusted (*sync.WaitGroup).Add(n)
+//@   nopanic
+//@   pure
+//@ trusted (*sync.WaitGroup).Done()
+//@   nopanic
+//@   pure
+//@ trusted (*sync.WaitGroup).Wait()
+//@   nopanic
+//@   pure
+//@ trusted golang.org/x/sync/semaphore.NewWeighted(n) (s)
+//@   ensures s != nil
+//@   nopanic
+//@   pure
+//@ trusted (*golang.org/x/sync/semaphore.Weighted).Acquire(ctx, n) (err)
+//@   nopanic
+//@   pure
+//@ trusted (*golang.org/x/sync/semaphore.Weighted).Release(n)
+//@   nopanic
+//@   pure
+//@ trusted (context.Context).Err() (err)
+//@   nopanic
+//@   pure
+//@ family listmarshal [C04,C05,C01]
+//@   gosafe
+//@   ghost added = 0
+//@   at `wg.Add(len(v))` requires arg0 == len(v) && !isLen1
+//@   at `wg.Add(len(v))` ghost added = arg0
+//@   loop 1: invariant isLen1 || calls(spawn) + calls(Done) == idx1
+//@   loop 1: invariant isLen1 <==> len(v) == 1
+//@   loop 1: invariant isLen1 || added == len(v)
+//@   at `wg.Wait()` requires isLen1 || calls(spawn) + calls(Done) == added
+//@   ensures res0 != graphql.Null && len(v) > 0 ==> calls(Wait) == 1
+//@ family listmarshal$closure [C04,C05]
+//@   params f
+//@   noescape
+//@   ensures !isLen1 ==> calls(Done) == 1
+//@   ensures isLen1 ==> calls(Done) == 0
+//@   ensures panicked ==> calls(Recover) == 1 && calls(Error) == 1
+// NonNull element type ([T!]): a null element makes the whole list null.
+//@ family listnn [C01]
+//@   loop 2: invariant forall k int :: (0 <= k && k < idx2) ==> ret[k] != graphql.Null
+//@   ensures res0 != graphql.Null ==> (forall k int :: (0 <= k && k < len(res0.(graphql.Array))) ==> res0.(graphql.Array)[k] != graphql.Null)
+
+// generated!.gotpl / root_.gotpl: C13 every deferred group that is started is delivered exactly once with its own
+// path and label; C05/C04 the delivering goroutine cannot die from a panic (the field closures it runs handle theirs).
+//@ trusted sync/atomic.AddInt32(addr, delta) (n)
+//@   nopanic
+//@ trusted sync/atomic.AddUint32(addr, delta) (n)
+//@   nopanic
+//@ trusted github.com/99designs/gqlgen/graphql.WithFreshResponseContext(ctx) (c)
+//@   nopanic
+//@   pure
+//@ trusted github.com/99designs/gqlgen/graphql.GetErrors(ctx) (errs)
+//@   nopanic
+//@   pure
+// (Dispatch only runs closures registered through Concurrently; each of them is proved panic-free: object$closure)
+//@ trusted (*github.com/99designs/gqlgen/graphql.FieldSet).Dispatch(ctx)
+//@   nopanic
+//@ family deferredgroup [C13,C05,C04]
+//@   gosafe
+//@   at `send ec.deferredResults` requires val.Path == dg.Path && val.Label == dg.Label
+//@   goensures calls(send) == 1 && calls(Dispatch) == 1
+//@   ensures calls(AddInt32) == 1 && calls(spawn) == 1
+
+// C16: the introspection constructors are only reachable through the gate functions, and the gate refuses when
+// introspection is disabled - whatever alias, fragment or variable the query used to reach __schema/__type.
+//@ trusted errors.New(text) (err)
+//@   ensures err != nil
+//@   nopanic
+//@   pure
+//@ family introspectgate [C16]
+//@   callsite WrapSchema: requires !ec.DisableIntrospection
+//@   callsite WrapTypeFromDef: requires !ec.DisableIntrospection
+//@   ensures old(ec.DisableIntrospection) ==> res1 != nil && res0 == nil
+//@   ensures !old(ec.DisableIntrospection) ==> res1 == nil
+//@ family nogatebypass [C16]
+//@   callsite WrapSchema: requires false
+//@   callsite WrapTypeFromDef: requires false
+
+// C06: the mutation root never hands a field to the concurrent scheduler.
+//@ family mutationroot [C06]
+//@   callsite Concurrently: requires false
+//@   ensures calls(Concurrently) == 0
+
+// object.gotpl. C13: a deferred field goes to the FieldSet of its label and is NOT also registered in the main
+// set; deferred groups are only started for an object that is itself valid.
+//@ family object [C13,C01]
+//@   at `out.Concurrently(i, func(ctx context.Context) graphql.Marshaler { return innerFunc(ctx, out) })` requires field.Deferrable == nil
+//@   at `dfs.Concurrently(di, func(ctx context.Context) graphql.Marshaler { return innerFunc(ctx, dfs) })` requires field.Deferrable != nil
+//@   at `atomic.AddInt32(&ec.deferred, int32(len(deferred)))` requires out.Invalids == 0
+//@   ensures calls(Dispatch) <= 1
+
+// executableSchema.Schema(): a read-only getter (needed so that evaluating `ec.Schema()` between the gate test and
+// the constructor call cannot change DisableIntrospection).
+//@ family schemagetter [C16]
+//@   pure
+//@   ensures calls(Schema) == 0
